@@ -64,15 +64,43 @@ def _sdk():
 
 
 def make_obj(i: str, v: int):
+    """content of an object = a version number plus an (initially empty) ordered list of digits; both are folded into ONE
+    number, which is what the model stores as the object's content (it treats content as opaque)"""
     model, _ = _sdk()
-    return model.Submodel(i, submodel_element=[model.Property("v", model.datatypes.Int, v)])
+    return model.Submodel(i, submodel_element=[model.Property("v", model.datatypes.Int, v),
+                                               model.SubmodelElementList("L", model.Property, value_type_list_element=model.datatypes.Int)])
+
+
+def fold(v: int, digits: List[int]) -> int:
+    return v + 1000 * int("".join(map(str, digits)) or "0")
+
+
+def unfold(c: int) -> Tuple[int, List[int]]:
+    return c % 1000, [int(ch) for ch in str(c // 1000)] if c >= 1000 else []
+
+
+def ledit_ref(c: int, how: str, x: int) -> int:
+    """reference semantics of a list edit on folded content"""
+    v, ds = unfold(c)
+    if how == "ins0" and len(ds) < 4:
+        ds = [x] + ds
+    elif how == "app" and len(ds) < 4:
+        ds = ds + [x]
+    elif how == "pop0" and ds:
+        ds = ds[1:]
+    return fold(v, ds)
 
 
 def ver_of(o) -> Any:
     try:
-        return o.get_referable("v").value
+        return fold(o.get_referable("v").value, [p.value for p in o.get_referable("L").value])
     except Exception as e:  # pragma: no cover
         return "no-version:" + type(e).__name__
+
+
+def ver_of_json(data: dict) -> int:
+    els = {e.get("idShort"): e for e in data["submodelElements"]}
+    return fold(int(els["v"]["value"]), [int(p["value"]) for p in els["L"].get("value", [])])
 
 
 def hash_of(i: str) -> str:
@@ -135,12 +163,21 @@ class World:
             if k == "gc":
                 gc.collect()
                 return ["unit"]
-            if k in ("setver", "drop", "commit", "update"):
+            if k in ("setver", "drop", "commit", "update", "ledit"):
                 o = self.obj(op[1])
                 if o is None:
                     return ["bad-ref"]
                 if k == "setver":
                     o.get_referable("v").value = op[2]
+                elif k == "ledit":
+                    model, _ = _sdk()
+                    lst = o.get_referable("L").value
+                    if op[2] == "ins0" and len(lst) < 4:
+                        lst.insert(0, model.Property(None, model.datatypes.Int, op[3]))
+                    elif op[2] == "app" and len(lst) < 4:
+                        lst.add(model.Property(None, model.datatypes.Int, op[3]))
+                    elif op[2] == "pop0" and len(lst) > 0:
+                        lst.pop(0)
                 elif k == "drop":
                     self.strong[op[1]] = None
                 elif k == "commit":
@@ -198,8 +235,7 @@ class World:
             try:
                 with open(os.path.join(self.dir, name), "rb") as f:
                     d = json.loads(f.read().decode("utf-8"))
-                v = d["data"]["submodelElements"][0]["value"]
-                v = int(v) if d["data"]["id"] == i else "id-mismatch"
+                v = ver_of_json(d["data"]) if d["data"]["id"] == i else "id-mismatch"
             except Exception:
                 v = "corrupt"
             disk.append([i, v])
@@ -252,9 +288,11 @@ def gen_history(rng: random.Random, w: World, length: int, ninst: int, ids: List
             op = ["get", k, rng.choice(ids)]
         elif x < 0.55:
             op = ["discard", k, rng.choice(lv)]
-        elif x < 0.63:
+        elif x < 0.59:
             ver[0] += 1
             op = ["setver", rng.choice(lv), ver[0]]
+        elif x < 0.63:
+            op = ["ledit", rng.choice(lv), rng.choice(["ins0", "ins0", "app", "pop0"]), rng.randint(1, 9)]
         elif x < 0.71:
             op = ["commit", rng.choice(lv)]
         elif x < 0.78:
@@ -298,7 +336,13 @@ def correspond_seq(ctx: C.Ctx, cov: C.Coverage, lines, impl_out, index, cases):
             for oi in range(length):
                 (op, out), = gen_history(sub, w, 1, ninst, ids) if oi else gen_history(sub, w, 1, ninst, ids)
                 ops.append(op)
-                lines.append(op)
+                if op[0] in ("ledit", "setver"):
+                    # for the model (content is opaque) an edit is an assignment of the resulting content
+                    o_ = w.obj(op[1])
+                    lines.append(["setver", op[1], ver_of(o_) if o_ is not None else 0])
+                    del o_
+                else:
+                    lines.append(op)
                 impl_out.append(out)
                 index.append((len(cases), oi))
                 lines.append(["view", ninst + 1])
@@ -518,7 +562,7 @@ def run_schedule(cfg: Dict[str, Any], sched_list: List[int]) -> Dict[str, Any]:
         filever = None
         if os.path.exists(path):
             with open(path) as f:
-                filever = int(json.load(f)["data"]["submodelElements"][0]["value"])
+                filever = ver_of_json(json.load(f)["data"])
         fresh0 = cfg["fresh0"] if r0 is None else (ver_of(r0) == filever if filever is not None else cfg["fresh0"])
         objs = [results[t][1] for t in (0, 1) if results.get(t, ("", None))[0] == "obj"]
         return {"trace": trace, "res": [res(0), res(1)], "cache": name(cur), "fresh0": bool(fresh0),
@@ -668,7 +712,7 @@ def check_sequence(ops: List[List[Any]]) -> Optional[C.Failing]:
 
         for oi, op in enumerate(ops):
             k = op[0]
-            if k in ("setver", "drop", "commit", "update") and w.obj(op[1]) is None:
+            if k in ("setver", "drop", "commit", "update", "ledit") and w.obj(op[1]) is None:
                 continue
             if k in ("add", "discard", "contains_obj") and w.obj(op[2]) is None:
                 continue
@@ -677,7 +721,9 @@ def check_sequence(ops: List[List[Any]]) -> Optional[C.Failing]:
                 r = out[1]
                 local[r], attached[r], oid[r] = op[2], False, op[1]
             elif k == "setver":
-                local[op[1]] = op[2]
+                local[op[1]] = fold(op[2], unfold(local[op[1]])[1])
+            elif k == "ledit":
+                local[op[1]] = ledit_ref(local[op[1]], op[2], op[3])
             elif k == "drop":
                 for key in [key for key, r in ident.items() if r == op[1]]:
                     del ident[key]
